@@ -62,6 +62,18 @@ CHECKS = {
             "Gauss rule, manufactured polynomial solutions, linearity, mode independence, refusal of pure-Neumann problems",
             "Generated coefficient functions, boundary-condition sets, right-hand sides, 1-3 ranks; condition-aware "
             "tolerance.", "3/C14", MPI_NOTE + " " + NUM_NOTE),
+    "C15": ("property-based testing (Hypothesis): the driver's QN pipeline on simulated worlds vs numpy.fft + dense "
+            "Galerkin reference per mode; FFT round trip; eps=0 fixed point of a complete Strang step",
+            "Generated grids (even/odd theta), densities, chi, electron model, process grids.", "3/C15",
+            MPI_NOTE + " " + NUM_NOTE),
+    "C16": ("property-based testing (Hypothesis): density kernels vs exact integration of the interpolant (collocation + "
+            "Gauss-Legendre reference), analytic polynomial integrals; DensityFinder on simulated worlds vs a global "
+            "reference using each point's own global radius",
+            "Generated v spaces, distributions, storage types, process grids.", "3/C16", MPI_NOTE + " " + NUM_NOTE),
+    "C17": ("property-based testing (Hypothesis): local diagnostics summed over simulated ranks vs serial quadrature of "
+            "the assembled global field (non-uniform r,v), analytic volume, min/max vs global field for all argument "
+            "shapes, DiagnosticCollector slots under generated reduction orders",
+            "Generated grids, layouts incl. replicated ones, process grids, roots, reduction orders.", "3/C17", MPI_NOTE),
     "C20": ("exhaustive enumeration of a finite box + Hypothesis far beyond it, brute-force divisor oracle, "
             "line-event budget for termination",
             "All triples of the box are decided (exhaustive:true for that sub-check); termination as a "
